@@ -22,6 +22,7 @@ import re
 import lib
 
 QUICK_CAP = 12000
+THOROUGH_WALKS = 20
 RULES = ["UniqueOpNames", "LoneAnonymous", "SingleSubscriptionRoot", "FieldsOnCorrectType", "LeafSelections",
          "OverlappingFieldsCanBeMerged", "ArgumentsKnown", "ArgumentsUnique", "ArgumentsRequired", "ValuesOfCorrectType",
          "FragmentsWellFormed", "FragmentsAcyclic", "FragmentSpreadPossible", "DirectivesKnown", "DirectivesLocated",
@@ -103,16 +104,35 @@ def run_trace(ctx, idx, rows):
     return bad
 
 
+def where(a, b, depth=0):
+    """place of the first difference between the base document and a mutated one: the path of member names (indices dropped)"""
+    if type(a) != type(b):
+        return ""
+    if isinstance(a, dict):
+        for k in sorted(a):
+            if k not in b or a[k] != b[k]:
+                return k + ("." + where(a[k], b.get(k), depth + 1) if k in b and depth < 8 else "")
+        return ""
+    if isinstance(a, list):
+        for x, y in zip(a, b):
+            if x != y:
+                return where(x, y, depth + 1)
+        return "+" if len(a) != len(b) else ""
+    return ""
+
+
 def stratified(cases, cap, rng, small=800):
-    """Seed-selected sample: mutation kinds with at most `small` cases completely, the rest round-robin over (kind, base)."""
+    """Seed-selected sample: mutation kinds with at most `small` cases completely, the rest round-robin over the strata
+    (kind, base operation, place of the mutation in the document) so that rare places are always represented."""
     if cap >= len(cases):
         return list(cases)
     per_kind = collections.Counter(c["kind"] for c in cases)
+    bases = {c["base"]: c["doc"] for c in cases if c["kind"] == "Base"}
     out = [c for c in cases if per_kind[c["kind"]] <= small]
     strata = collections.defaultdict(list)
     for c in cases:
         if per_kind[c["kind"]] > small:
-            strata[(c["kind"], c["base"])].append(c)
+            strata[(c["kind"], c["base"], where(bases.get(c["base"]), c["doc"]).rstrip("."))].append(c)
     for v in strata.values():
         rng.shuffle(v)
     keys = sorted(strata)
@@ -149,17 +169,36 @@ def run(ctx):
     quick = ctx.quick()
     check_admission_pin(ctx, ADMISSION_PINNED)
     binary = ctx.build("validate")
+    replay = None
+    if ctx.replay_in:
+        # bin/check C04 --replay <file>: judge the one recorded case again (same driver, same trace specification)
+        with open(ctx.replay_in) as f:
+            replay = json.load(f)["case"]
     # ---- 1. model checking ---------------------------------------------------------------------
     ctx.tlc_must_pass("core", "MC_GQLCore", "MC_GQLCore.cfg", workers=4, timeout=600, tag="mc-core")
     catalog_path, catalog = load_catalog(ctx)
     # ---- 2. generate ---------------------------------------------------------------------------
-    g = ctx.tlc_must_pass("core", "Gen_C04", "Gen_C04.cfg" if quick else "Gen_C04_thorough.cfg", workers=8, timeout=3000,
-                          deadlock=False, tag="gen", heap="12g")
+    if replay:
+        allcases = [{"base": replay.get("base", "?"), "schema": replay["schema"], "kind": replay.get("kind", "Replay"), "doc": replay["doc"],
+                     "vars": replay.get("vars", [])}]
+        cases = run_cases(ctx, binary, catalog_path, allcases, True, rng, vacuity=False)
+        return
+    g = ctx.tlc_must_pass("core", "Gen_C04", "Gen_C04.cfg", workers=8, timeout=3000, deadlock=False, tag="gen", heap="12g")
+    printed = list(g.printed)
+    if not quick:
+        # depth beyond the exhaustive bound: base -> one rewrite step -> every mutation of the rewritten operation (sampled walks)
+        g2 = ctx.tlc_must_pass("core", "Gen_C04", "Gen_C04_sim.cfg", workers=1, timeout=3000, deadlock=False, tag="gen-rewrite-then-mutate",
+                               simulate=THOROUGH_WALKS, depth=3, seed=ctx.seed, heap="12g")
+        printed += g2.printed
     uniq = {}
-    for c in g.printed:
+    for c in printed:
         uniq.setdefault(lib.sha([c["schema"], c["doc"], c["vars"]]), c)
     allcases = sorted(uniq.values(), key=lambda c: lib.sha([c["schema"], c["kind"], c["doc"]]))
-    ctx.log("generated %d cases (%d distinct documents)" % (len(g.printed), len(allcases)))
+    ctx.log("generated %d cases (%d distinct documents)" % (len(printed), len(allcases)))
+    run_cases(ctx, binary, catalog_path, allcases, quick, rng, vacuity=True)
+
+
+def run_cases(ctx, binary, catalog_path, allcases, quick, rng, vacuity):
     cases = stratified(allcases, QUICK_CAP if quick else 10 ** 9, rng)
     for i, c in enumerate(cases):
         c["id"] = i + 1
@@ -195,7 +234,7 @@ def run(ctx):
     # vacuity: every rule of the property must be violated by some replayed case
     rules_hit = collections.Counter(r for c in cases for r in c["failed"])
     missing = [r for r in RULES if rules_hit[r] == 0]
-    if missing:
+    if missing and vacuity:
         raise lib.Inconclusive("generator is vacuous for rules %s (no replayed case violates them)" % missing)
     ctx.log("spec verdicts: %d valid / %d invalid" % (sum(1 for c in cases if c["expected"]), sum(1 for c in cases if not c["expected"])))
     # ---- 5. verdicts -----------------------------------------------------------------------------
@@ -232,7 +271,7 @@ def run(ctx):
     ctx.coverage.update({
         "traces_validated_against_impl": len(cases),
         "evaluations": len(cases),
-        "distinct_nontrivial": len({lib.sha([c["schema"], c["doc"]]) for c in cases if c["kind"] != "Base"}),
+        "distinct_nontrivial": len({lib.sha([c["schema"], c["doc"]]) for c in cases if c["kind"] != "Base" and not c["kind"].startswith("Rw")}),
         "rule": "one case = one document over a catalog schema (corpus operation + exactly one rule-targeted mutation in the reachable "
                 "part) replayed through Request.Normalize(engine options) + ValidateForSchema and judged by TLC against SpecValid; "
                 "distinct by (schema, document); non-trivial = carries a mutation",
